@@ -338,6 +338,22 @@ def gen_args(c, fam, m, o):
     return None
 
 
+def generic_args(c, o, m):
+    """a method the generator has no recipe for (e.g. one added after this harness was written): one short string per
+    required positional parameter, read from the signature of the undecorated function"""
+    import inspect
+    from harness.c01.world import underlying
+    try:
+        sig = inspect.signature(underlying(getattr(o, m)))
+    except (TypeError, ValueError, AttributeError):
+        return None
+    args = []
+    for p in list(sig.parameters.values())[1:]:
+        if p.kind in (p.POSITIONAL_ONLY, p.POSITIONAL_OR_KEYWORD) and p.default is p.empty:
+            args.append(S(c.rng.choice(["zz", "a", "t1"])))
+    return args, {}
+
+
 def start_objects(rng, theme):
     new = [["new", "Table:" + t] for t in rng.sample(["t1", "t2", "t3", "s.t4"], rng.randint(1, 3))]
     q = lambda: rng.choice(QUERY_KINDS)
@@ -450,6 +466,8 @@ def gen_history(rng, tab, theme, ncalls):
         for _try in range(4):
             m = rng.choice(meths)
             ga = gen_args(c, fam, m, o)
+            if ga is None and ">" not in m:
+                ga = generic_args(c, o, m)
             if ga is not None:
                 break
         if ga is None:
